@@ -283,8 +283,8 @@ def _scalar_dtype(v):
         if c is not None and c.re.denominator == 1:
             return "int"
         atoms = v.top_atoms()
-        if atoms and all(a.integer for a in atoms) and v.is_poly() and all(cc.re.denominator == 1 for cc in v.n.values()):
-            return "int"
+        if atoms and all(a.integer for a in atoms) and all(cc.re.denominator == 1 for cc in v.n.values()) and all(isinstance(p, int) and p > 0 for m in v.n for _, p in m):
+            return "int"  # a polynomial with integer coefficients in integer quantities (no quotients, roots or symbolic powers)
         return "float"
     if isinstance(v, bool):
         return "bool"
